@@ -498,6 +498,9 @@ M("r25-cxx-table-released-unconditionally", ["C16", "C14"], "break",
 M("r25-c-table-released-unconditionally", ["C14"], "break",
   [("yaep.c", "  if (!grammar->one_parse_p)\n#ifndef __cplusplus\n    delete_hash_table (parse_state_tab);\n#else\n    delete parse_state_tab;\n#endif", "#ifndef __cplusplus\n    delete_hash_table (parse_state_tab);\n#else\n  if (!grammar->one_parse_p)\n    delete parse_state_tab;\n#endif")],
   "parse_state_fin/release-parse_state_tab")
+M("c03-revert-F33-shared-alt-lists", ["C04", "C03"], "break",
+  [("yaep.c", "      child = (i == disp ? NULL : anode->val.anode.children[i]);\n      child_place = &node->val.anode.children[i];", "      child = NULL;\n      child_place = &node->val.anode.children[i];\n      if (i != disp)\n	*child_place = anode->val.anode.children[i];\n      else")],
+  "copy_anode/node-store")
 
 # ---- R8 / R2f (C16, C19) ----------------------------------------------------------------------------
 M("r8-revert-F14", ["C19", "C16"], "break", [("hashtab.cpp", "		  entry_ptr = first_deleted_entry_ptr;\n		  *entry_ptr = EMPTY_ENTRY;", "		  entry_ptr = first_deleted_entry_ptr;\n		  *entry_ptr = DELETED_ENTRY;")], "find_hash_table_entry~")
